@@ -9,14 +9,15 @@
 (* injective map  Aff(i,j) = i*n + j, so a block can only match if rows AND columns AND order are right.            *)
 EXTENDS Integers, Sequences, FiniteSets, TLC
 
-VARIABLES cf,         \* [n, bs, maxiter, hasaff, affid, decorated, whole, sparse, mode]   (bs = effective batch size;
+VARIABLES cf,         \* [n, d, groups, bs, maxiter, hasaff, affid, decorated, whole, sparse, mode]   (bs = effective batch size;
                       \*  affid: the affinity is the injective map Aff, so blocks can be checked here)
           ph,         \* "start" | "epoch" | "batch" | "update" | "prox" | "done"
           epoch,      \* epochs begun
           remaining,  \* samples not yet delivered in the current epoch
           cur,        \* the batch being processed (sequence of sample ids)
-          steps       \* optimiser steps so far
-tvars == <<cf, ph, epoch, remaining, cur, steps>>
+          steps,      \* optimiser steps so far
+          sel         \* sparse models: features whose (skip-)weight row is non-zero after the last proximal step
+tvars == <<cf, ph, epoch, remaining, cur, steps, sel>>
 
 Aff(i, j) == i * cf.n + j
 Ceil(a, b) == (a + b - 1) \div b
@@ -24,16 +25,16 @@ MinI(a, b) == IF a < b THEN a ELSE b
 RangeOf(s) == {s[i] : i \in 1..Len(s)}
 Injective(s) == \A i, j \in 1..Len(s) : s[i] = s[j] => i = j
 
-Init == ph = "start" /\ cf = <<>> /\ epoch = 0 /\ remaining = {} /\ cur = <<>> /\ steps = 0
+Init == ph = "start" /\ cf = <<>> /\ epoch = 0 /\ remaining = {} /\ cur = <<>> /\ steps = 0 /\ sel = {}
 
-Begin(c) == /\ ph = "start" /\ cf' = c /\ ph' = "epoch"
+Begin(c) == /\ ph = "start" /\ cf' = c /\ ph' = "epoch" /\ sel' = 0..(c.d - 1)
             /\ UNCHANGED <<epoch, remaining, cur, steps>>
 
 EpochOver == (ph = "epoch") \/ (ph = "batch" /\ remaining = {})
 StartEpoch == /\ EpochOver
               /\ (cf.mode = "fit" => epoch < cf.maxiter)
               /\ epoch' = epoch + 1 /\ remaining' = 0..(cf.n - 1) /\ ph' = "batch"
-              /\ UNCHANGED <<cf, cur, steps>>
+              /\ UNCHANGED <<cf, cur, steps, sel>>
 
 (* a batch: the next min(bs, |remaining|) samples of the epoch's permutation, each exactly once per epoch *)
 BatchShape(idx) == /\ Len(idx) = MinI(cf.bs, Cardinality(remaining))
@@ -45,14 +46,19 @@ BlockAligned(idx, block) == /\ Len(block) = Len(idx)
 Batch(idx) == /\ ph = "batch" /\ remaining # {}
               /\ BatchShape(idx)
               /\ remaining' = remaining \ RangeOf(idx) /\ cur' = idx /\ ph' = "update"
-              /\ UNCHANGED <<cf, epoch, steps>>
+              /\ UNCHANGED <<cf, epoch, steps, sel>>
 Update == /\ ph = "update" /\ steps' = steps + 1
           /\ ph' = IF cf.sparse THEN "prox" ELSE "batch"
-          /\ UNCHANGED <<cf, epoch, remaining, cur>>
-Prox == ph = "prox" /\ ph' = "batch" /\ UNCHANGED <<cf, epoch, remaining, cur, steps>>
+          /\ UNCHANGED <<cf, epoch, remaining, cur, sel>>
+(* the proximal step of a sparse model: some feature rows are zeroed (others may have been revived by the optimiser    *)
+(* step); the features of a declared group live and die together                                                    *)
+GroupsWhole(s) == \A gi \in 1..Len(cf.groups) : LET g == RangeOf(cf.groups[gi]) IN g \subseteq s \/ g \cap s = {}
+Prox(s) == /\ ph = "prox" /\ s \subseteq 0..(cf.d - 1) /\ GroupsWhole(s)
+           /\ sel' = s /\ ph' = "batch" /\ UNCHANGED <<cf, epoch, remaining, cur, steps>>
 Finish == /\ EpochOver /\ (cf.mode = "fit" => epoch = cf.maxiter)
-          /\ ph' = "done" /\ UNCHANGED <<cf, epoch, remaining, cur, steps>>
+          /\ ph' = "done" /\ UNCHANGED <<cf, epoch, remaining, cur, steps, sel>>
 
+GroupsStayWhole == ph # "start" => GroupsWhole(sel)
 (* theorems (model-checked on the specification for all n, bs, max_iter in range; evaluated on every real trace) *)
 BatchSizeOK == ph \in {"update", "prox"} => Len(cur) <= cf.bs /\ Len(cur) >= 1
 StepCount == (ph = "done" /\ cf.mode = "fit") => steps = cf.maxiter * Ceil(cf.n, cf.bs) /\ epoch = cf.maxiter
